@@ -19,7 +19,7 @@ from ..models import clusterref as cr
 ID = 'C10'
 RULE = ('(a) data sets: ordered tuples of distinct lattice points (Q: 1-D {0..4} n<=3, 2-D 2x2.. n<=3; T larger) x '
         'every ordered list of <=4 (Q: <=3 for 2-D) distinct grid points as centers x metrics x dtypes through '
-        'assign_to_nearest_center (also with metrics that reuse one output buffer / return views of a table), predict (after fit), find_cluster_centers; (b) all compositions of n<=6 (T: 8) x all '
+        'assign_to_nearest_center (also with metrics that reuse one output buffer / return views of a table), predict (after fit; and fit/predict/refit/predict histories on ONE estimator with numpy and mdtraj data, fewer and more frames than centers), find_cluster_centers; (b) all compositions of n<=6 (T: 8) x all '
         'flat center indices x all label vectors pattern through ClusterResult.partition/partition_list/'
         'partition_indices with list and ndarray center indices, partition called twice; find_cluster_centers for label dtypes '
         'int8..int64 over 3..300 frames (index range of the label dtype); (c) batch_reassign: all length vectors (<=3 files, length 1..3) x every batch size from '
@@ -29,7 +29,7 @@ ASSUMPTIONS = ['RMSD clauses (batch reassignment) compared at 1e-4: mdtraj float
                'batch_reassign is driven with determine_batch_size substituted by the explorer (environment answer) '
                'and the simulated in-process worker pool; the real trajectory files are written with mdtraj']
 GUARDS = {'narrow_lengths': 10, 'ndarray_indices': 100, 'label_dtypes': 50, 'more_centers_than_frames': 100, 'centers_not_frames': 100, 'ragged_partition': 100, 'square_partition': 50,
-          'len1_traj': 100, 'predict': 100, 'batch_boundary_cases': 20}
+          'len1_traj': 100, 'predict': 100, 'predict_history': 50, 'batch_boundary_cases': 20}
 NSH = {'quick': 32, 'thorough': 128}
 METRICS = ('euclidean', 'manhattan', 'chebyshev')
 
@@ -39,6 +39,7 @@ def shards(tier, seed):
     sh += [('partition', tier, n) for n in range(1, (7 if tier == 'quick' else 9))]
     sh += [('batch', tier, i) for i in range(4 if tier == 'quick' else 12)]
     sh += [('fcc', tier, 0)]
+    sh += [('phist', tier, i) for i in range(4)]
     return sh
 
 
@@ -396,10 +397,93 @@ def batch_cases(tier):
     return out
 
 
+# ------------------------------------------------------------------ (d) predict after every fit of ONE estimator object
+
+def _synthetic_trj(seed, n_frames, n_atoms=4):
+    import mdtraj as md
+    top = md.Topology()
+    ch = top.add_chain()
+    res = top.add_residue('ALA', ch)
+    for a in range(n_atoms):
+        top.add_atom('CA', md.element.carbon, res)
+    rng = np.random.RandomState(seed)
+    shapes = rng.rand(6, n_atoms, 3).astype(np.float32)
+    conf = [t % 6 for t in range(n_frames)]
+    xyz = (shapes[conf] + 0.3 * rng.rand(n_frames, n_atoms, 3)).astype(np.float32)
+    return md.Trajectory(xyz, top)
+
+
+def check_predict_history(case, ctx):
+    """fit / predict / fit / predict ... on ONE estimator: every predict must assign to the centers of the LATEST fit"""
+    import mdtraj as md
+    from enspara.cluster import KCenters, KHybrid
+    kind, est_name, steps = case['data'], case['estimator'], case['steps']
+    ctx.ev()
+    ctx.guard('predict_history')
+    ctx.state(('predict_history', kind, est_name, repr(steps)), nontrivial=True)
+    if kind == 'mdtraj':
+        sets = {name: _synthetic_trj(seed, n) for name, (seed, n) in (('A', (1, 9)), ('B', (2, 11)), ('C', (3, 7)))}
+        metric = md.rmsd
+        dist = lambda X, c: md.rmsd(X, c)
+        tol = 1e-4
+        take = lambda X, k: X[:k]
+    else:
+        rng = np.random.RandomState(7)
+        sets = {'A': rng.randint(0, 50, (9, 2)).astype(float), 'B': rng.randint(0, 50, (11, 2)).astype(float) + 100,
+                'C': rng.randint(0, 50, (7, 2)).astype(float) - 100}
+        metric = 'euclidean'
+        dist = lambda X, c: np.sqrt(((X - c) ** 2).sum(axis=1))
+        tol = 1e-9
+        take = lambda X, k: X[:k]
+    est = KCenters(metric, n_clusters=1) if est_name == 'KCenters' else KHybrid(metric, n_clusters=1, kmedoids_updates=1, random_state=0)
+    try:
+        for st in steps:
+            if st[0] == 'fit':
+                est.n_clusters = st[2]
+                est.fit(sets[st[1]])
+            else:
+                X = take(sets[st[1]], st[2])
+                r = est.predict(X)
+                cs = est.centers_
+                Dc = np.array([dist(X, c) for c in cs])
+                want = Dc.min(axis=0)
+                lab, d = np.asarray(r.assignments), np.asarray(r.distances)
+                if len(cs) != len(est.center_indices_):
+                    ctx.violation('predict_history:n_centers', case, '%d centers for %d center indices' % (len(cs), len(est.center_indices_)))
+                    return
+                if lab.shape != (len(X),) or lab.min() < 0 or lab.max() >= len(cs):
+                    ctx.violation('predict_history:labels:%s' % kind, case, 'labels %r for %d fitted centers after step %r' % (lab.tolist(), len(cs), st))
+                    return
+                if np.abs(d - want).max() > tol or np.abs(Dc[lab, np.arange(len(X))] - want).max() > tol:
+                    ctx.violation('predict_history:not_nearest_fitted_center:%s' % kind, case,
+                                  'after %r: reported %r, minimal distance to the centers of the latest fit %r' % (st, d.tolist(), want.tolist()))
+                    return
+    except Exception as e:
+        ctx.violation('predict_history:raises:%s:%s' % (kind, type(e).__name__), case, 'raised %r on %r' % (e, case))
+
+
+def predict_history_cases():
+    out = []
+    for data in ('numpy', 'mdtraj'):
+        for est in ('KCenters', 'KHybrid'):
+            for k1, k2 in ((3, 4), (4, 2), (5, 5), (2, 6)):
+                for small in (1, 2, k1 - 1, k1, 7):
+                    out.append({'kind': 'predict_history', 'data': data, 'estimator': est,
+                                'steps': [('fit', 'A', k1), ('predict', 'C', small), ('predict', 'A', 9), ('fit', 'B', k2), ('predict', 'C', small),
+                                          ('predict', 'B', min(small, 5)), ('fit', 'A', k1), ('predict', 'C', small)]})
+    return out
+
+
 # ------------------------------------------------------------------
 
 def run_shard(sh, ctx):
     kind, tier, i = sh
+    if kind == 'phist':
+        cs = predict_history_cases()
+        for j in range(i, len(cs), 4):
+            check_predict_history(cs[j], ctx)
+        ctx.sample(cs[i])
+        return
     if kind == 'assign':
         cases = assign_cases(tier)
         for j in range(i, len(cases), NSH[tier]):
@@ -449,4 +533,4 @@ def replay(case, ctx):
     if case['kind'] == 'narrow_lengths':
         check_narrow_lengths(ctx)
         return
-    {'assign': check_assign, 'partition': check_partition, 'batch': check_batch}[case['kind']](case, ctx)
+    {'assign': check_assign, 'partition': check_partition, 'batch': check_batch, 'predict_history': check_predict_history}[case['kind']](case, ctx)
